@@ -16,6 +16,21 @@ CLAIMS = {
         "Exploration: ~25k (quick) / 400k (thorough) generated (type, centre, width, npts, nsigmas, limits, relative/absolute) tuples per run; every clause of the statement is an executable predicate; real-model meshes via get_mesh and the SasView wrapper cover the relative/absolute selection.",
         "Trusts numpy/scipy log/gammaln and the harness' transcription of the documented densities; limits are placed away from grid points so inclusion is rounding-independent.",
         "DESIGN.md section 3 C02"),
+    "C01": (
+        "Hypothesis-generated dispersity requests per compiled model; oracle = reference weighted mean assembled in numpy from the model's own C functions (harness-built shim library bypassing kernel_iq.c); raw kernel symbols under generated mesh partitions (bit-identical); refusal predicate",
+        "Exploration: ~7k (quick) / ~50k (thorough) generated (model, dim, parameters, 0..max_pd+1 dispersed parameters, cutoff, partition) cases over all 61 compiled models; all five call_Fq outputs and call_kernel compared at 1e-9 of the summand magnitude; one defect repaired (single-point truncation), one listed (empty mesh).",
+        "Trusts the C compiler, the model's own function bodies (they are the specification of F^2, V, R_eff), weights.get_weights (C02) and numpy; slow models get a measured mesh cap; NaN-weight and cancelling-normalisation requests are counted, not compared.",
+        "DESIGN.md section 3 C01"),
+    "C05": (
+        "Hypothesis-generated view/jitter/detector configurations per oriented model; oracle = numpy rotation reference R=RzRyRzRxRyRz applied to the model's own Iqac/Iqabc (shim) with |cos dtheta| weights, plus metamorphic relations (detector rotation, inversion, isotropy, 1-D independence)",
+        "Exploration: ~1.9k (quick) / ~38k (thorough) oriented cases over all 21 oriented models plus ~800 isotropy cases over the un-oriented models; every clause of the statement is an executable predicate.",
+        "Trusts numpy matrix algebra and the model's particle-frame functions; cutoff fixed at 0; un-oriented models that define their own Iqxy (line, micromagnetic_FF_3D: documented full-control mechanism) are outside the |q|-only clause; empty jitter meshes are left to C01.",
+        "DESIGN.md section 3 C05"),
+    "C14": (
+        "Hypothesis-seeded parameter sets from each model's own random() generator; oracle = validity predicates over call_Fq/call_kernel outputs (inequality, q->0 limit, spherical equality, intensity identity, equivalent-volume identity, positivity)",
+        "Exploration: 26 amplitude models x 60 (quick) / 1500 (thorough) generated parameter sets x modes x q; predicates are the statement's own clauses.",
+        "Domain as quantified: random()/default parameter sets, dispersity widths <= 0.2; spherical = category shape:sphere without orientation parameters.",
+        "DESIGN.md section 3 C14"),
     "C20": (
         "exhaustive iteration over both conversion tables x Hypothesis-generated parameter subsets/attributes/versions, oracle = independent transcription of the table semantics (names exist, values carried, defaults)",
         "Exploration: every table entry (75) x 100 (quick) / 1500 (thorough) generated legacy parameter sets; outputs validated against the parameter table of the current model loaded from the working tree; six genuine defects were repaired (fixed entries are replayed as regressions), five are listed findings excluded by input-derived bucket.",
